@@ -387,6 +387,11 @@ func (c *copier) copy(ctx context.Context, src, srcComponents, target string, ov
 		}
 	}
 
+	// whatever was recorded as a hard-link source at this path is about to be
+	// replaced: a later name of that inode must not be linked to what comes
+	// now (its inode number may even be the same one)
+	delete(c.linkSources, target)
+
 	copyFileInfo := include
 	restoreFileTimestamp := false
 	notify := true
